@@ -165,20 +165,33 @@ class Ctx:
         finally:
             lock.close()
 
-    def grep_audit(self):
+    def import_closure(self, roots):
+        """Lean source files reachable from the given modules through `import ScenicModel.*` / `import Driver.*`."""
+        seen, todo = {}, list(roots)
+        while todo:
+            m = todo.pop()
+            if m in seen:
+                continue
+            path = os.path.join(LEAN, *m.split(".")) + ".lean"
+            if not os.path.exists(path):
+                continue
+            txt = open(path).read()
+            seen[m] = (path, txt)
+            for im in re.findall(r"^\s*(?:public\s+)?import\s+((?:ScenicModel|Driver)[\w.]*)", txt, re.M):
+                todo.append(im)
+        return seen
+
+    def grep_audit(self, roots=None):
+        """No sorry/admit/axiom/native_decide/... in any file the property's theorems or driver depend on."""
+        roots = roots or [f"ScenicModel.Props.{self.prop}", f"Driver.{self.prop}"]
         bad = []
-        for base in ("ScenicModel", "Driver"):
-            for dp, _, fns in os.walk(os.path.join(LEAN, base)):
-                for fn in fns:
-                    if fn.endswith(".lean"):
-                        p = os.path.join(dp, fn)
-                        txt = strip_lean_comments(open(p).read())
-                        m = FORBIDDEN.search(txt)
-                        if m:
-                            bad.append((os.path.relpath(p, LEAN), m.group(0).strip()))
+        for m, (path, txt) in self.import_closure(roots).items():
+            mm = FORBIDDEN.search(strip_lean_comments(txt))
+            if mm:
+                bad.append((os.path.relpath(path, LEAN), mm.group(0).strip()))
         return bad
 
-    def prove(self, theorems, module=None, side_conditions=(), extra_targets=("driver",)):
+    def prove(self, theorems, module=None, side_conditions=(), extra_targets=None):
         """Build the property's theorem module and audit the axioms of each named theorem.
 
         theorems: fully qualified names of the property theorems (one obligation each);
@@ -188,6 +201,8 @@ class Ctx:
         res = ProofResult()
         names = list(theorems) + list(side_conditions)
         res.obligations = len(names)
+        if extra_targets is None:
+            extra_targets = (f"drv_{self.prop.lower()}",)
         rc, log = self.lake(["build", module] + list(extra_targets))
         res.build_log = log
         if rc != 0:
@@ -200,7 +215,7 @@ class Ctx:
             for f in res.failed:
                 self.broken("proof", module, f)
             return res
-        bad = self.grep_audit()
+        bad = self.grep_audit([module, f"Driver.{self.prop}"])
         if bad:
             res.ok = False
             res.failed += [f"forbidden token {tok!r} in {p}" for p, tok in bad]
@@ -253,9 +268,9 @@ class Ctx:
 
     def driver(self, lines, timeout=1200):
         """Feed lines to the compiled Lean driver; returns its output lines (one per input line)."""
-        exe = os.path.join(LEAN, ".lake", "build", "bin", "driver")
+        exe = os.path.join(LEAN, ".lake", "build", "bin", f"drv_{self.prop.lower()}")
         if not os.path.exists(exe):
-            rc, log = self.lake(["build", "driver"])
+            rc, log = self.lake(["build", f"drv_{self.prop.lower()}"])
             if rc != 0:
                 raise Infra("cannot build Lean driver:\n" + log[-2000:])
         data = "\n".join(lines) + "\n"
@@ -440,15 +455,18 @@ _findings_cache = None
 
 
 def load_findings():
-    """KNOWN_FINDINGS.json -> {property: {key: what}} for entries with status 'known'."""
+    """KNOWN_FINDINGS.json (+ findings.d/*.json while a property is under construction)
+    -> {property: {key: what}} for entries with status 'known'."""
     global _findings_cache
     if _findings_cache is None:
-        path = os.path.join(ROOT, "KNOWN_FINDINGS.json")
+        import glob
         res = collections.defaultdict(dict)
-        if os.path.exists(path):
-            data = json.load(open(path))
-            for e in data.get("findings", []):
-                if e.get("status", "known") == "known":
-                    res[e["property"]][e["key"]] = e["what"]
+        files = [os.path.join(ROOT, "KNOWN_FINDINGS.json")] + sorted(glob.glob(os.path.join(ROOT, "findings.d", "*.json")))
+        for path in files:
+            if os.path.exists(path):
+                data = json.load(open(path))
+                for e in data.get("findings", []):
+                    if e.get("status", "known") == "known":
+                        res[e["property"]][e["key"]] = e["what"]
         _findings_cache = res
     return _findings_cache
